@@ -29,7 +29,10 @@ pub fn corpus(extras: bool, thorough: bool) -> Vec<G> {
         "\"a\" ~ \"a\"", "\"a\" | \"b\"", "\"a\"?", "\"a\"*", "\"a\"+", "\"a\"{2}", "\"a\"{1,}", "\"a\"{,2}", "\"a\"{1,2}", "&\"a\" ~ ANY", "!\"b\" ~ ANY", "PUSH(\"a\") ~ POP", "x ~ x", "(x | \"b\")*", "(x ~ \"b\")+",
         "x? ~ \"a\"", "^\"a\" ~ 'a'..'b'",
         // every container construct around a sequence and around a repetition (the implicit skip inside it)
-        "PUSH(x ~ x) ~ POP?", "PUSH(x*) ~ \"b\"?", "PUSH(x ~ \"b\")? ~ PEEK?", "&(x ~ x) ~ ANY*", "!(x ~ \"b\") ~ ANY*", "(x ~ x)?", "(x ~ x){2}", "(x ~ x){1,2}", "((x ~ x) | x)+", "&(x*) ~ !(x+ ~ \"b\") ~ ANY*", "SOI ~ x* ~ EOI", "(x ~ \"b\") | x", "(x ~ \"b\")* ~ x", "PUSH(x) ~ (PEEK | x)*", "(!(\"a\" | \"b\") ~ ANY)*", "x{2,3}",
+        "PUSH(x ~ x) ~ POP?", "PUSH(x*) ~ \"b\"?", "PUSH(x ~ \"b\")? ~ PEEK?", "&(x ~ x) ~ ANY*", "!(x ~ \"b\") ~ ANY*", "(x ~ x)?", "(x ~ x){2}", "(x ~ x){1,2}", "((x ~ x) | x)+", "&(x*) ~ !(x+ ~ \"b\") ~ ANY*",
+        // a bare popping matcher directly under ?, *, | after two pushes, then a reader of the stack
+        "PUSH(x) ~ PUSH(\"b\") ~ POP? ~ PEEK ~ ANY?", "PUSH(x) ~ PUSH(\"b\") ~ (POP | x) ~ POP? ~ PEEK_ALL?", "PUSH(x) ~ PUSH(\"b\") ~ POP* ~ PEEK_ALL? ~ ANY*", "PUSH(x) ~ PUSH(\"b\") ~ POP_ALL? ~ PEEK[..]? ~ ANY*",
+        "PUSH(x) ~ PUSH(\"b\") ~ (POP_ALL | \"b\") ~ DROP? ~ PEEK?", "SOI ~ x* ~ EOI", "(x ~ \"b\") | x", "(x ~ \"b\")* ~ x", "PUSH(x) ~ (PEEK | x)*", "(!(\"a\" | \"b\") ~ ANY)*", "x{2,3}",
     ];
     if extras {
         forms.extend(["(#t = x) ~ x", "#t = (x ~ x)", "(#t = x)*", "#t = x? ~ \"a\"", "x ~ (#t = \"a\"?)", "(#t = x | #u = \"b\")+", "PUSH_LITERAL(\"a\") ~ x ~ POP", "#t = (x+)", "x ~ #t = (\"b\"*) ~ x", "(#t = x ~ \"b\")?", "#t = x*", "#t = (x ~ \"b\")* ~ x?", "\"b\"? ~ #t = x* ~ #u = x?", "#t = (x | \"b\")*"]);
